@@ -5,10 +5,17 @@ C09 driver.
   (nul (nn (f …) …) (q <query>) (nullcols j …) …)
                                           → flags=0101 bad=j …   reported Nullable flags; columns flagged
                                             NOT NULL among those that hold a NULL in the engine's rows
+  (conv TARGET SRC childNullable via)     → f<flag> n<null> | err   Convert.IsNullable / Eval returned NULL
+  (uconv FAML FAMR same SRC nl nr side scope)
+                                          → f<flag> n<null>        a row of one side of a set operation
+  (gpick TA TB kind)                      → (ty …)                 GeneralizeTypes of two text types
+  (gcov TA TB wa wb)                      → 1 | 0                  … accepts the longest values of both
+  (gcol TA TB (CELL …) kind)              → ok | bad i j …         a CASE / IF / IFNULL / UNION column over them
 -/
 import Gms.Driver.SqlProto
 import Gms.Model.ResultType
-open Gms.Proto Gms.Sql Gms.Rel Gms.SqlProto Gms.ResultType
+import Gms.Model.ConvType
+open Gms.Proto Gms.Sql Gms.Rel Gms.SqlProto Gms.ResultType Gms.ConvType
 
 def rty? (s : Sexp) : Option RTy :=
   match s with
@@ -48,6 +55,75 @@ def flags? (s : Sexp) : Option Flags :=
   | .list fs => fs.mapM fun f => f.nat?.map (· == 1)
   | _ => none
 
+def conv? (s : Sexp) : Option Conv :=
+  match s with
+  | .atom n => Conv.all.find? (fun c => c.name == n)
+  | _ => none
+
+def shape? (s : Sexp) : Option Shape :=
+  match s with
+  | .atom "date" => some .date | .atom "datetime" => some .datetime | .atom "time" => some .time
+  | .atom "num" => some .num | .atom "junk" => some .junk | .atom "empty" => some .empty
+  | .atom "json" => some .json | .atom "unenc" => some .unenc
+  | _ => none
+
+def src? (s : Sexp) : Option Src :=
+  match s with
+  | .atom "null" => some .null
+  | .list [.atom "num", .atom "small"] => some (.num false)
+  | .list [.atom "num", .atom "big"] => some (.num true)
+  | .list [.atom "text", sh, _] => (shape? sh).map .text
+  | .list [.atom "bytes", b, blob, sh] =>
+    match b.bytes?, blob.nat?, shape? sh with
+    | some b, some blob, some sh => some (.bytes (b.map (·.toNat)) (blob == 1) sh)
+    | _, _, _ => none
+  | .list [.atom "temporal", .atom "date"] => some (.temporal .date)
+  | .list [.atom "temporal", .atom "datetime"] => some (.temporal .datetime)
+  | .list [.atom "temporal", .atom "time"] => some (.temporal .time)
+  | _ => none
+
+def fam? (s : Sexp) : Option Fam :=
+  match s with
+  | .atom "null" => some .null | .atom "blob" => some .blob | .atom "decimal" => some .decimal
+  | .atom "bit" => some .bit | .atom "uint" => some .uint | .atom "sint" => some .sint
+  | .atom "float" => some .float | .atom "year" => some .year | .atom "other" => some .other
+  | _ => none
+
+def textTy? (s : Sexp) : Option TextTy :=
+  match s with
+  | .list [.atom "ty", t, c, b, m] =>
+    match t.nat?, c.nat?, b.nat?, m.nat? with
+    | some t, some c, some b, some m => some ⟨t == 1, c, b, m⟩
+    | _, _, _, _ => none
+  | _ => none
+
+def showTextTy (t : TextTy) : String :=
+  "(ty " ++ (if t.text then "1" else "0") ++ " " ++ toString t.chars ++ " " ++ toString t.bytes ++ " " ++
+    toString t.mb ++ ")"
+
+def bit (b : Bool) : String := if b then "1" else "0"
+
+def showOut (flag : Bool) : Out → String
+  | .val => "f" ++ bit flag ++ " n0"
+  | .null => "f" ++ bit flag ++ " n1"
+  | .err => "err"
+
+/-- The longest witness the harness builds for MEDIUMTEXT / LONGTEXT operands (bytes). -/
+def topCap : Nat := 70000
+
+def topCapped (t : TextTy) (w : Nat) : Str :=
+  let s := top t w
+  if t.text then ⟨min s.chars topCap, min s.bytes topCap⟩ else s
+
+def strCell? (s : Sexp) : Option (Option Str) :=
+  match s with
+  | .atom "null" => some none
+  | .list [.atom "s", c, b] =>
+    match c.nat?, b.nat? with
+    | some c, some b => some (some ⟨c, b⟩)
+    | _, _ => none
+  | _ => none
+
 def showFlags (f : Flags) : String := String.ofList (f.map fun b => if b then '1' else '0')
 
 def showObs (flags : Flags) (bad : List Nat) : String :=
@@ -80,6 +156,56 @@ def handle (p : List Sexp) : String :=
         let c := if cs.contains .outerJoin then Cause.outerJoin
           else if cs.contains .aggregate then Cause.aggregate else Cause.other
         answer (showObs flags bad) (showObs flags []) c.name
+    | _, _, _ => answer "bad-case"
+  | [.list [.atom "conv", t, src, nn, .atom via]] =>
+    match conv? t, src? src, nn.nat? with
+    | some c, some s, some nn =>
+      -- via = same: the column already has the target's type, the planbuilder drops the Convert
+      let flag := if via == "same" then nn == 1 else nullConv c (nn == 1)
+      let o := if via == "same" then (if s == .null then Out.null else Out.val) else convOut c s
+      -- the property speaks about NULL results only: otherwise the Spec leaves the flag open
+      if o == .null && !flag then answer (showOut flag o) (showOut true o) (convRegion c s).name
+      else if o == .null then answer (showOut flag o)
+      else answer (showOut flag o) "?"
+    | _, _, _ => answer "bad-case"
+  | [.list [.atom "uconv", fl, fr, same, src, nl, nr, _, scope]] =>
+    match fam? fl, fam? fr, same.nat?, src? src, nl.nat?, nr.nat?, scope.nat? with
+    | some l, some r, some same, some s, some nl, some nr, some scope =>
+      let same := same == 1
+      let t := setopTarget l r
+      let sound := setopFlag same l r (nl == 1) (nr == 1)
+      let flag := if scope == 1 then setopScopeFlag (nl == 1) (nr == 1) else sound
+      let o := if same then (if s == .null then Out.null else Out.val) else convOut t s
+      if o == .null && !flag then
+        let region := if sound then "setop_conversion_scope_notnull" else (convRegion t s).name
+        answer (showOut flag o) (showOut true o) region
+      else if o == .null then answer (showOut flag o)
+      else answer (showOut flag o) "?"
+    | _, _, _, _, _, _, _ => answer "bad-case"
+  | [.list [.atom "gpick", a, b, _]] =>
+    match textTy? a, textTy? b with
+    | some a, some b => answer (showTextTy (generalizeText a b)) "?"
+    | _, _ => answer "bad-case"
+  | [.list [.atom "gcov", a, b, wa, wb]] =>
+    match textTy? a, textTy? b, wa.nat?, wb.nat? with
+    | some a, some b, some wa, some wb =>
+      let r := generalizeText a b
+      let ok := accepts r (topCapped a wa) && accepts r (topCapped b wb)
+      if ok then answer "1"
+      else answer "0" "1" (if MixedFamily a b then "generalize_char_vs_text" else "-")
+    | _, _, _, _ => answer "bad-case"
+  | [.list [.atom "gcol", a, b, .list cs, .atom kind]] =>
+    match textTy? a, textTy? b, cs.mapM strCell? with
+    | some a, some b, some cs =>
+      let r := generalizeText a b
+      let bad := cs.zipIdx.filter fun (c, _) =>
+        match c with
+        | none => false
+        | some s => !accepts r s
+      if bad.isEmpty then answer "ok"
+      else
+        answer ("bad " ++ " ".intercalate (bad.map fun p => toString p.2)) "ok"
+          (if MixedFamily a b then "generalize_char_vs_text" else "string_too_long_" ++ kind)
     | _, _, _ => answer "bad-case"
   -- a statement of the type-heavy stream whose NOT NULL column holds NULL: reported by the
   -- harness's model-free oracle (the model has no term for these statements)
